@@ -31,14 +31,14 @@ def compress : List Int → Option (List (Int × Int))
   | g :: rest => some (compressFrom g (g :: rest))
 
 /-- the expansion loop of `importMuxSignal`: `for j := from; j <= to; j++`, refused when a
-    range goes beyond the group count -/
+    range is descending or goes beyond the group count -/
 def expandRange (from_ to : Int) : List Int :=
   (List.range (to - from_ + 1).toNat).map (fun (k : Nat) => from_ + (k : Int))
 
 def expand (groupCount : Int) : List (Int × Int) → Option (List Int)
   | [] => some []
   | (f, t) :: rest =>
-    if t ≥ groupCount then none
+    if f > t ∨ t ≥ groupCount then none
     else match expand groupCount rest with
       | none => none
       | some xs => some (expandRange f t ++ xs)
